@@ -23,11 +23,15 @@ LR_ALL = ["per", "sym", "insub", "insup", "outsub", "outsup"]
 LR_COPY = ["per", "sym", "outsub", "outsup"]
 
 
-def _bcparams(g, t, rho, u2, p):
+def _bcparams(g, t, rho, u2, p, case=None):
     pt, rt = _tot(g, rho, u2, p)
     d = {"type": t}
+    # the imposed total pressure is usually above every interior total pressure; for a deterministic quarter of the cases it sits at the geometric mean of the
+    # interior STATIC pressures, so that at some inlet faces the interior pressure exceeds it (blocked inlet: the inlet Mach number is clipped to zero there)
+    import zlib
+    low = case is not None and zlib.crc32(repr(sorted((k, repr(v)) for k, v in case.items())).encode()) % 4 == 0
     if t in ("insub", "insup"):
-        d["ptot"] = 1.25 * float(np.max(pt))
+        d["ptot"] = 1.25 * float(np.max(pt)) if not low else float(np.exp(np.mean(np.log(p))))
         d["rttot"] = 1.25 * float(np.max(rt))
     if t == "insup":
         d["p"] = 0.5 * float(np.max(p))
@@ -68,8 +72,8 @@ def check_rows(case):
         if (tl == "per") != (tr == "per"):
             tr = tl
         tt = "per"
-    bl = _bcparams(g, tl, rho, u * u, p)
-    br = _bcparams(g, tr, rho, u * u, p)
+    bl = _bcparams(g, tl, rho, u * u, p, case)
+    br = _bcparams(g, tr, rho, u * u, p, case)
     # 1-D reference
     model1 = cases.build_model(md1)
     mesh1 = cases.build_mesh(dict(kind="uni", n=n, length=ll, x0=0.0))
@@ -143,10 +147,10 @@ def strat_sym(tier):
         st.sampled_from(["centered", "hlle"]), tag, tag, tag, tag, st.sampled_from(["transpose", "reflect-x", "reflect-y"]))
 
 
-def _bc2d(g, t, rho, V, p):
+def _bc2d(g, t, rho, V, p, case=None):
     if t == "dirichlet":
         return {"type": t, "prim": [1.1 * float(rho[0]), np.array([[0.3 * float(V[0][0]) + 0.1], [0.3 * float(V[1][0]) - 0.2]]), 0.9 * float(p[0])]}
-    return _bcparams(g, t, rho, V[0] ** 2 + V[1] ** 2, p)
+    return _bcparams(g, t, rho, V[0] ** 2 + V[1] ** 2, p, case)
 
 
 def _map_bc(bc, mp):
@@ -197,7 +201,7 @@ def check_sym(case):
         tags["right"] = tags["left"]
     if (tags["bottom"] == "per") != (tags["top"] == "per"):
         tags["top"] = tags["bottom"]
-    bc = {k: _bc2d(g, t, rho, V, p) for k, t in tags.items()}
+    bc = {k: _bc2d(g, t, rho, V, p, case) for k, t in tags.items()}
     # the original and the mapped problem share ONE model object and both operators are built before either is evaluated
     # (mesh-dependent data cached on the model or on a class would then leak from one operator into the other)
     shared, disc0, f0 = _operator(g, nx, ny, lx, ly, case["num"], case["flux"], bc, rho, V, p)
